@@ -10,6 +10,9 @@ def pick_ies(rng, sup, user_ok=True, maxn=12):
         if user_ok and rng.random() < 0.15:
             ty = rng.choice(G.SUPPORTED)
             ln = 65535 if ty in (0, 13) else {12: 6, 18: 4, 19: 16, 11: 1}.get(ty, G.WIDTH.get(ty, 1))
+            if ty == 0 and rng.random() < 0.5:
+                ln = rng.choice([1, 6, 16, 33])      # a fixed-length octet array: a declared length that is NOT the type's default
+
             out.append(G.IE(rng.choice([55555, 4294967295, 1]), rng.choice([1, 2, 300, 32766, 32767]), ty, ln, "user%d" % ty))
         else:
             out.append(rng.choice(sup))
